@@ -146,70 +146,95 @@ def rule_implicitcast(P) -> RuleResult:
 # R-COALESCE
 
 def rule_coalesce(P) -> RuleResult:
+    """coalesce(a, b, c): the node announces the type of its first argument, so the compiler accepts exactly the argument lists whose
+    types are all that type.  Decided on concrete lists of compiled operands (position of the deviating argument: 2nd or 3rd)."""
     res = RuleResult('R-COALESCE')
     res.exhaustive = True
     fi = _method(P, '_function')
     ec = P.cls('beanquery.query_compile', 'EvalCoalesce')
     init = ec.methods.get('__init__')
-    if init is None or 'args[0].dtype' not in ast.unparse(init.node):
-        raise AnalysisError('EvalCoalesce no longer announces the type of its first argument: rule not applicable as written')
+    if init is None:
+        raise AnalysisError('anchor vanished: EvalCoalesce.__init__')
     NODE = Sym('NODE')
+    # the announced type: that of the first argument
+    OBJ, A0, A1 = Sym('COALESCE_NODE'), Sym('ARG0'), Sym('ARG1')
+    for p in Engine(P, max_depth=2).paths(init, {'self': OBJ, init.params[1]: SList([A0, A1])}):
+        if p.heap.get(_attr(OBJ, 'dtype')) != _attr(A0, 'dtype'):
+            res.fail(ec.fq, 'coalesce:announces', f'EvalCoalesce must announce the type of its first argument; announces '
+                     f'`{show(p.heap.get(_attr(OBJ, "dtype")))}`', loc(init))
+            return res
     types_ = ['str', 'int', 'bool', 'Decimal', 'date', 'object']
     real = TYPE_SYMS
     n = 0
     ok = True
+    AST = [Sym(f'AST_ARG{i}') for i in range(3)]
+    COMP = [Sym(f'C_ARG{i}') for i in range(3)]
     for first in types_:
         for other in types_:
-            n += 1
-            F, O = Sym(first), Sym(other)
-            OPS = T('compiled-operands', ())
+            for pos in (1, 2):
+                n += 1
+                dt = [Sym(first)] * 3
+                dt[pos] = Sym(other)
 
-            def on_attr(base, attr, ex, _F=F, _O=O):
-                if base == NODE and attr == 'fname':
-                    return 'coalesce'
-                if base == NODE and attr == 'operands':
-                    return Sym('AST_OPERANDS')
-                if attr == 'dtype':
-                    if isinstance(base, T) and base.op == 'elem':
-                        return _O
-                    if isinstance(base, T) and base.op == 'item' and base.args[1] == 0:
-                        return _F
-                if attr == '__name__' and isinstance(base, Sym):
-                    return base.name
-                return NotImplemented
+                def on_attr(base, attr, ex, _dt=dt):
+                    if base == NODE and attr == 'fname':
+                        return 'coalesce'
+                    if base == NODE and attr == 'operands':
+                        return SList(list(AST))
+                    if attr == 'dtype' and base in COMP:
+                        return _dt[COMP.index(base)]
+                    if attr == '__name__' and isinstance(base, Sym):
+                        return base.name
+                    return NotImplemented
 
-            def on_call(fname, fval, recv, args, kwargs, ex, node):
-                f = str(fname)
-                if f == 'issubclass' and len(args) == 2 and all(isinstance(a, Sym) and a.name in real for a in args):
-                    return issubclass(real[args[0].name], real[args[1].name])
-                if f.endswith('.join'):
-                    return 'x'
-                return NotImplemented
+                def on_call(fname, fval, recv, args, kwargs, ex, node):
+                    f = str(fname)
+                    last = f.split('.')[-1]
+                    if last == '_compile' and args and args[0] in AST:
+                        return COMP[AST.index(args[0])]
+                    if f == 'issubclass' and len(args) == 2 and all(isinstance(a, Sym) and a.name in real for a in args):
+                        return issubclass(real[args[0].name], real[args[1].name])
+                    if last == 'EvalCoalesce':
+                        return T('new', ('EvalCoalesce', args))
+                    if f.endswith('.join') or last == 'lower':
+                        return 'x'
+                    return NotImplemented
 
-            def oracle(term, ex):
-                # the compiled operands of this case: at least two of them
-                if isinstance(term, SList) and term.origin is not None and term.origin[0] == Sym('AST_OPERANDS'):
-                    return True
-                return None
-            eng = Engine(P, on_attr=on_attr, on_call=on_call, oracle=oracle)
-            for p in eng.paths(fi, {'self': SELF, fi.params[1]: NODE}):
-                rejected = p.outcome == 'raise' and p.value[0] == 'CompilationError'
-                if p.outcome == 'raise' and not rejected:
-                    ok = False
-                    res.fail(f'{fi.fq}:coalesce', f'coalesce:{first}:{other}:raises', f'coalesce(<{first}>, <{other}>) raises {p.value[0]}', loc(fi))
-                    continue
-                want = first != other
-                if rejected != want:
-                    ok = False
-                    res.fail(f'{fi.fq}:coalesce', f'coalesce:{first}:{other}',
-                             f'coalesce(<{first}>, ..., <{other}>) is {"rejected" if rejected else "accepted"}; the result is announced as {first}, '
-                             f'so an argument of type {other} must be {"rejected" if want else "accepted"}', loc(fi))
+                def oracle(term, ex):
+                    if isinstance(term, T) and term.op == 'cmp' and term.args[0] in ('==', '!=', 'is', 'is not') and \
+                            isinstance(term.args[1], Sym) and isinstance(term.args[2], Sym) and term.args[1].name in real and term.args[2].name in real:
+                        same = term.args[1].name == term.args[2].name
+                        return same == (term.args[0] in ('==', 'is'))
+                    return None
+                for p in Engine(P, on_attr=on_attr, on_call=on_call, oracle=oracle).paths(fi, {'self': SELF, fi.params[1]: NODE}):
+                    rejected = p.outcome == 'raise' and p.value[0] == 'CompilationError'
+                    label = ', '.join(f'<{d.name}>' for d in dt)
+                    if p.decisions:
+                        raise AnalysisError(f'{fi.fq}: coalesce({label}): undecided test `{show(p.decisions[0][0])[:60]}`')
+                    if p.outcome == 'raise' and not rejected:
+                        ok = False
+                        res.fail(f'{fi.fq}:coalesce', f'coalesce:{first}:{other}:raises', f'coalesce({label}) raises {p.value[0]}', loc(fi))
+                        continue
+                    want = first != other
+                    if rejected != want:
+                        ok = False
+                        res.fail(f'{fi.fq}:coalesce', f'coalesce:{first}:{other}',
+                                 f'coalesce({label}) is {"rejected" if rejected else "accepted"}; the result is announced as {first}, '
+                                 f'so an argument of type {other} must be {"rejected" if want else "accepted"}', loc(fi))
+                    elif not rejected and p.value != T('new', ('EvalCoalesce', (SList(list(COMP)),))) and not (
+                            isinstance(p.value, T) and p.value.op == 'new' and p.value.args[0] == 'EvalCoalesce' and len(p.value.args[1]) == 1
+                            and isinstance(p.value.args[1][0], SList) and p.value.args[1][0].items == COMP):
+                        ok = False
+                        res.fail(f'{fi.fq}:coalesce', 'coalesce:operands', f'coalesce({label}) must evaluate its compiled arguments in '
+                                 f'order; the node is built as `{show(p.value)[:100]}`', loc(fi))
+                if not ok:
+                    break
             if not ok:
                 break
         if not ok:
             break
     if ok:
-        res.ok({'site': fi.fq, 'type_pairs': n, 'accepts': "only arguments of the first argument's type"})
+        res.ok({'site': fi.fq, 'type_lists': n, 'accepts': "only arguments of the first argument's type"})
     # coalesce() without arguments: rejected, not an IndexError from the evaluator's constructor
     def on_attr0(base, attr, ex):
         if base == NODE and attr == 'fname':
@@ -349,6 +374,33 @@ def rule_idxbound(P, N=3, hiddens=(0, 1), positions=None, flow=True) -> RuleResu
             want = pos - 1 if 1 <= pos <= N else None
             for g in got:
                 ok &= judge('ORDER BY', fi, pos, g, want, f'with {N} targets (two of them named alike)' + (' and an invisible GROUP BY target' if hidden else ''))
+    # a key listed twice: the later occurrence can never decide anything, so the list means what it means without it
+    if N >= 2:
+        tg, attrs = _targets(N, 0)
+        SP = [Sym('SPEC_A'), Sym('SPEC_B'), Sym('SPEC_A_AGAIN')]
+        ASC, DESC = Sym('ASCENDING'), Sym('DESCENDING')
+        for sp, (pos, d) in zip(SP, ((1, ASC), (2, ASC), (1, DESC))):
+            attrs[(sp, 'column')] = pos
+            attrs[(sp, 'ordering')] = d
+        for p in run(fi, {'self': SELF, fi.params[1]: SList(list(SP)), fi.params[2]: SList(tg)}, attrs):
+            spec = None
+            if p.outcome == 'return' and isinstance(p.value, T) and p.value.op == 'tuple' and len(p.value.args) == 2:
+                sv = p.value.args[1]
+                items = list(sv.items) if isinstance(sv, SList) and not sv.opaque_tail else None
+                if items is not None and all(isinstance(x, T) and x.op == 'tuple' and len(x.args) == 2 for x in items):
+                    spec = [tuple(x.args) for x in items]
+            if spec is None:
+                raise AnalysisError(f'{fi.fq}: ORDER BY 1, 2, 1 DESC: order specification not concrete on terms: {p.outcome} {show(p.value)[:80]}')
+            # what the list means: first occurrence of each key, in order
+            meaning, seen_keys = [], set()
+            for i, d in spec:
+                if i not in seen_keys:
+                    seen_keys.add(i)
+                    meaning.append((i, d))
+            if meaning != [(0, ASC), (1, ASC)]:
+                ok = False
+                res.fail(f'{fi.fq}:positional-reference', 'idxbound:ORDER BY:repeated', f'ORDER BY 1, 2, 1 DESC must order like ORDER BY 1, 2 '
+                         f'(a key listed again cannot decide anything); the order specification is {[(i, show(d)) for i, d in spec]}', loc(fi))
     if ok:
         res.ok({'clause': 'ORDER BY', 'positions': list(POS), 'targets': N, 'invisible_targets': list(hiddens)})
     # PIVOT BY: same domain; the other reference is a valid, different, grouped column
@@ -497,6 +549,7 @@ def set_name_cases(P, res):
             def on_call(fname, fval, recv, args, kwargs, ex, node, _n=ncomp):
                 f = str(fname)
                 if f == 'shlex.split':
+                    ex.events.append(('split', args, kwargs))
                     return SList(['NAME', 'VALUE', 'EXTRA'][:_n])
                 if f in ('print',):
                     ex.events.append(('print', args))
@@ -512,6 +565,13 @@ def set_name_cases(P, res):
                 return None
             for p in Engine(P, on_call=on_call, oracle=oracle).paths(ds, {'self': SHELL, ds.params[1]: 'NAME VALUE'}):
                 calls = [str(e[1]).split('.')[-1] for e in p.events if e[0] == 'call']
+                for e in p.events:
+                    if e[0] == 'split' and (e[1] != ('NAME VALUE',) or any((k, v) not in (('comments', False), ('posix', True)) for k, v in e[2])):
+                        if ok:
+                            res.fail(ds.fq, 'settings:words', f'.set takes its words from shlex.split(arg) with the default rules (quotes group, '
+                                     f'nothing else is special): found shlex.split({", ".join([show(a) for a in e[1]] + [f"{k}={v!r}" for k, v in e[2]])}); '
+                                     f'a value such as `#N/A` is then cut and not stored', loc(ds))
+                        ok = False
                 reflect = [c for c in calls if c in ('getstr', 'setstr')]
                 errors = [c for c in calls if c == 'error']
                 if not valid:
